@@ -384,6 +384,28 @@ def eval_case(c):
                     V('dict-front-end-differs', f'{nm}: dual_dissipation_from_dict_or_world_instance gives {xw!r} but quick_dual_body_tidal_dissipation gives {x0!r} for the same bodies and state')
         except ZeroDivisionError:
             pass
+        # I7 (dual): one world's spin given as a frequency and the other's as a period describes the same state
+        rat2 = spins[1] / n
+        if spins[1] != 0.0 and not any(abs(rat2 * m_ - round(rat2 * m_)) < 1e-6 for m_ in range(1, 8)):
+            try:
+                cnt['calls'] += 1
+                rm = quick_dual_body_tidal_dissipation(radii, masses, (g, g2), (rho, rho2), (C, 0.4 * m2 * R2 * R2),
+                                                       viscosities=(c['visc'], c['visc'] * 3), shear_moduli=(c['mu'], c['mu'] * 0.6), rheologies=rheos,
+                                                       obliquities=(f(obls[0]), f(obls[1])), spin_frequencies=(f(spins[0]), None), spin_periods=(None, f(2 * math.pi / spins[1] / 86400.0)),
+                                                       fixed_k2s=(c['k2'], c['k2'] * 0.5), fixed_qs=(c['q'], c['q'] * 2), eccentricity=f(e), orbital_frequency=f(n),
+                                                       max_tidal_order_l=c['lmax'], eccentricity_truncation_lvl=c['N'])
+                if c10:
+                    pairs = [(first(r[k]['tidal_heating']), first(rm[k]['tidal_heating']), f'{k}.tidal_heating') for k in ('host', 'secondary')]
+                else:
+                    pairs = [(first(r[k]['spin_rate_derivative']), first(rm[k]['spin_rate_derivative']), f'{k}.spin_rate_derivative') for k in ('host', 'secondary')]
+                    pairs += [(da, first(rm['semi_major_axis_derivative']), 'semi_major_axis_derivative')]
+                big = max(abs(x0) for x0, _, _ in pairs)
+                for x0, xm, nm in pairs:
+                    cnt['identities_checked'] += 1
+                    if math.isfinite(x0) and math.isfinite(xm) and abs(x0 - xm) > 1e-7 * max(abs(x0), 1e-6 * big):
+                        V('mixed-frequency-period-spins', f'{nm}: {xm!r} when the secondary spin is given as a period and the host spin as a frequency, but {x0!r} when both are frequencies (same state)')
+            except ZeroDivisionError:
+                pass
         Hs = [first(r[k]['tidal_heating']) for k in ('host', 'secondary')]
         dss = [first(r[k]['spin_rate_derivative']) for k in ('host', 'secondary')]
         dMs = [first(r[k]['dUdM']) for k in ('host', 'secondary')]
